@@ -486,8 +486,9 @@ def c18_fifo(w, k, op, before, sim, reports):
                     va = sim.vehicles[q[a][1]]
                     m = w.env.mechatronics[va.mechatronics_id]
                     can_use = cs is not None and m.valid_charger(cs.charger)
-                    if can_use:   # a vehicle queueing for a plug type it can never use is outside the property (hypothesis can_use, DESIGN §5 C18)
-                        out.append(('C18', 'overtaken_in_queue', {'station': sid, 'charger': cid, 'left_waiting': q[a][1], 'served': q[b][1], 'can_use': can_use}))
+                    # (a vehicle queueing for a plug type it can never use counts too: since fix acfbea2 such a vehicle is refused at
+                    # dispatch and cannot be in the queue of a reachable state)
+                    out.append(('C18', 'overtaken_in_queue', {'station': sid, 'charger': cid, 'left_waiting': q[a][1], 'served': q[b][1], 'can_use': can_use}))
     return out
 
 def c20_shifts(w, k, op, before, sim, reports):
